@@ -2,7 +2,7 @@
 # usage: mutcheck.sh <mutant-dir> [prop ...]   — applies the mutant's patch in a scratch worktree of /repo's HEAD and runs the checks
 # prints one line per (mutant, property): DETECTED / missed / ERROR
 set -u
-MD=$1; shift
+MD=$(realpath $1); shift
 name=$(basename $MD)
 prop=${name%%-*}
 props=${@:-$prop}
